@@ -381,8 +381,12 @@ func (r *replayer) compare(n *RNode, ti int, want stateJ, what string, replay an
 	if want.Pc.K == "idle" && want.MinReorg != 0 && p.MinReorg != want.MinReorg {
 		return mm("minreorg", p.MinReorg, want.MinReorg)
 	}
-	if want.Pc.K == "idle" && len(want.Lis) > 0 && !reflect.DeepEqual(map[string]int(want.Lis), p.Lis) {
-		return mm("listeners", p.Lis, want.Lis)
+	if want.Pc.K == "idle" {
+		for name, cnt := range want.Lis {
+			if p.Lis[name] != cnt {
+				return mm("listeners", p.Lis, want.Lis)
+			}
+		}
 	}
 	if t.Node(p.Mem).L != nil && !p.StateOK && !p.OrderDiverged {
 		return mm("tipstate", "differs from linear replay", "equal")
